@@ -1,3 +1,6 @@
 #!/bin/bash
-# Extract the seed corpus (every YAML rule body in the repository's fixtures) into $1/seeds.
-exec python3 "$(dirname "$0")/seeds.py" "$1" 1>&2
+# Extract the seed corpus (every YAML rule body in the repository's fixtures) into Go source compiled into the harness.
+set -eu
+python3 "$(dirname "$0")/seeds.py" "$1" 1>&2
+echo "--replace"
+echo "verifharness/c02/seeds_gen.go=$1/seeds_gen.go"
